@@ -5,11 +5,14 @@
 //   - the delay of the TASK_RUNNING timer and the capacity of pendingFinalTaskStateCh in doLaunch,
 //   - whether ensureBasicTaskKilled tests `ProcessState != nil` before calling Exited() on it.
 // It also checks the skeleton the model takes for granted and fails when it is not found:
-//   ensureBasicTaskKilled: nil command -> return, HOOK -> return, send of TASK_KILLED on the pending
-//     channel before syscall.Kill(-pid, SIGKILL);
-//   basicTaskBase.Kill: drops the command handle, sends TASK_FINISHED, sends no signal;
-//   ControllableTask.Kill: starts with t.rpc.GetState, pushes TASK_FINISHED iff reachedState == "DONE"
-//     (then sleeps DONE_TIMEOUT), else TASK_KILLED, then pidExists -> doTermIntKill;
+//   ensureBasicTaskKilled: nil command -> return, HOOK -> return, reaped child (ProcessState != nil)
+//     -> sweep the group and return, else non-blocking send of TASK_KILLED on the pending channel
+//     before syscall.Kill(-pid, SIGKILL);
+//   basicTaskBase.Kill: stops the RUNNING timer, ensureBasicTaskKilled, drops the command handle,
+//     sends TASK_FINISHED;
+//   ControllableTask.Kill: returns an error when t.rpc is nil, starts with t.rpc.GetState, pushes
+//     TASK_FINISHED iff reachedState == "DONE" (then sleeps DONE_TIMEOUT), else TASK_KILLED, then
+//     pidExists -> doTermIntKill, then SIGKILL to the process group;
 //   doTermIntKill: SIGTERM, Sleep(SIGTERM_TIMEOUT), pidExists -> SIGINT, Sleep(SIGINT_TIMEOUT),
 //     !pidExists -> return, doKill9;
 //   the reaper of startBasicTask / Launch polls pendingFinalTaskStateCh without blocking.
@@ -145,15 +148,16 @@ func trExecTask() string {
 	if capv < 0 || runMs < 0 {
 		die("exectask: doLaunch: make(chan ...) or time.AfterFunc not found")
 	}
-	etOrder("doLaunch", etSrc(fsetB, dl), `pendingFinalTaskStateCh = make\(chan`, `time\.AfterFunc\(`, `sendStatus\([^)]*TASK_RUNNING`)
+	etOrder("doLaunch", etSrc(fsetB, dl), `pendingFinalTaskStateCh = make\(chan`, `t\.runningTimer = time\.AfterFunc\(`, `sendStatus\([^)]*TASK_RUNNING`)
 
 	// ---- ensureBasicTaskKilled
 	ek := findFunc(fb, "basicTaskBase", "ensureBasicTaskKilled")
 	if ek == nil {
 		die("exectask: ensureBasicTaskKilled not found")
 	}
+	// the test that keeps STOP from touching a nil ProcessState: `if t.taskCmd.ProcessState != nil { ... return nil }`
 	guard := false
-	foundExited := false
+	usesExited := false
 	ast.Inspect(ek, func(x ast.Node) bool {
 		is, ok := x.(*ast.IfStmt)
 		if !ok {
@@ -161,25 +165,26 @@ func trExecTask() string {
 		}
 		cond := etSrc(fsetB, is.Cond)
 		if strings.Contains(cond, "ProcessState.Exited()") {
-			foundExited = true
-			if be, ok := is.Cond.(*ast.BinaryExpr); ok && be.Op == token.LAND {
-				left := etSrc(fsetB, be.X)
-				if left == "t.taskCmd.ProcessState != nil" {
-					guard = true
-				}
+			usesExited = true
+			if be, ok := is.Cond.(*ast.BinaryExpr); ok && be.Op == token.LAND && etSrc(fsetB, be.X) == "t.taskCmd.ProcessState != nil" {
+				guard = true
 			}
+		}
+		if cond == "t.taskCmd.ProcessState != nil" {
+			guard = true
 		}
 		return true
 	})
-	if !foundExited {
-		die("exectask: ensureBasicTaskKilled: test of ProcessState.Exited() not found")
+	if !guard && !usesExited {
+		die("exectask: ensureBasicTaskKilled: no test of ProcessState found")
 	}
 	etOrder("ensureBasicTaskKilled", etSrc(fsetB, ek),
 		`if t\.taskCmd == nil \{ return nil \}`,
 		`if t\.Tci\.ControlMode == controlmode\.HOOK \{ return nil \}`,
-		`ProcessState\.Exited\(\) \{ return nil \}`,
-		`t\.pendingFinalTaskStateCh <- mesos\.TASK_KILLED`,
 		`\w+ := t\.taskCmd\.Process\.Pid`,
+		`if t\.taskCmd\.ProcessState != nil \{`,
+		`syscall\.Kill\(-\w+, syscall\.SIGKILL\) return nil \}`,
+		`select \{ case t\.pendingFinalTaskStateCh <- mesos\.TASK_KILLED: default: \}`,
 		`syscall\.Kill\(-\w+, syscall\.SIGKILL\)`)
 
 	// ---- basicTaskBase.Kill
@@ -188,10 +193,7 @@ func trExecTask() string {
 		die("exectask: basicTaskBase.Kill not found")
 	}
 	bks := etSrc(fsetB, bk)
-	etOrder("basicTaskBase.Kill", bks, `t\.taskCmd = nil`, `go t\.sendStatus\([^)]*TASK_FINISHED`)
-	if strings.Contains(bks, "syscall.Kill") || strings.Contains(bks, "ensureBasicTaskKilled") || strings.Contains(bks, ".Signal(") {
-		die("exectask: basicTaskBase.Kill now signals the child: the model (Kill of a basic task drops the handle only) is out of date")
-	}
+	etOrder("basicTaskBase.Kill", bks, `t\.ensureBasicTaskKilled\(\)`, `t\.taskCmd = nil`, `t\.runningTimer\.Stop\(\)`, `go t\.sendStatus\([^)]*TASK_FINISHED`)
 
 	// ---- reaper of startBasicTask
 	sb := findFunc(fb, "basicTaskBase", "startBasicTask")
@@ -210,14 +212,18 @@ func trExecTask() string {
 		die("exectask: ControllableTask.Kill not found")
 	}
 	etOrder("ControllableTask.Kill", etSrc(fsetC, ck),
+		`if t\.rpc == nil \{ return errors\.New\(`,
 		`\w+, \w+ := t\.rpc\.GetState\(`,
 		`for \w+ != "DONE" \{`,
 		`case <-time\.After\(KILL_TRANSITION_TIMEOUT\)`,
+		`\w+ = t\.rpc\.TaskCmd\.Process\.Pid`,
 		`_ = t\.rpc\.Close\(\) t\.rpc = nil`,
 		`if \w+ == "DONE" \{`,
 		`t\.pendingFinalTaskStateCh <- mesos\.TASK_FINISHED time\.Sleep\(DONE_TIMEOUT\)`,
 		`t\.pendingFinalTaskStateCh <- mesos\.TASK_KILLED`,
-		`if pidExists\(\w+\) \{ return t\.doTermIntKill\(\w+\) \}`)
+		`if pidExists\(\w+\) \{ \w+ = t\.doTermIntKill\(\w+\) \}`,
+		`syscall\.Kill\(-\w+, syscall\.SIGKILL\)`,
+		`return \w+`)
 	tk := findFunc(fc, "ControllableTask", "doTermIntKill")
 	if tk == nil {
 		die("exectask: doTermIntKill not found")
